@@ -6,6 +6,7 @@
     (constructor, Next/Scan until false). *)
 From Coq Require Import List NArith ZArith.
 From PQ Require Import Bytes Schema Rle Io Reader IoProofs ReaderIoProofs.
+From PQgen Require Import SourceFacts.
 Import ListNotations.
 
 Theorem C08_read_frag_indep : forall decompress fs file sched1 sched2 fail,
@@ -23,3 +24,16 @@ Theorem C08_read_full : forall fuel want acc s,
              s_fail s' = s_fail s /\ s_ops s' = s_ops s.
 Proof. exact read_full_loop_ok. Qed.
 Print Assumptions C08_read_full.
+
+From Coq Require Import String.
+
+(** Source census of this run (regenerated from /repo's working tree and from
+    code parquetgen generates now): no function of fields.go, parquet.go or the
+    generated package calls Read directly on its io.Reader/io.ReadSeeker
+    parameter — every read of the caller's source goes through io.ReadFull,
+    io.CopyN, binary.Read or the thrift transport — and the level decoder's
+    single Read calls are made on in-memory buffers only.  This is what ties
+    [m_read_full] to the code; a new raw read breaks this obligation. *)
+Example C08_census_no_raw_source_read :
+  raw_source_reads = [] /\ read_levels_calls_not_on_in_memory_buffer = [].
+Proof. split; reflexivity. Qed.
